@@ -466,7 +466,7 @@ STD_KINDS = ["rejection", "flow", "cap", "resume-flow", "rejection-t", "resume-r
              "rejection-offset", "flow-offset", "rejection-flat", "flow-angle"]
 
 
-def std_config(kind, seed, nlive):
+def std_config(kind, seed, nlive, dims=2):
     kw = dict(nlive=nlive, plot=False, seed=seed, signal_handling=False, result_extension="json", checkpointing=False,
               flow_config=dict(n_blocks=2, n_neurons=4), training_config=dict(max_epochs=5, patience=3),
               stopping=[0.5, 0.1, 0.3][seed % 3])
@@ -477,7 +477,8 @@ def std_config(kind, seed, nlive):
     if kind.endswith("-t"):
         kw.update(shrinkage_expectation="t")
     if kind.endswith("-angle"):
-        kw.update(reparameterisations={"x1": {"reparameterisation": "angle"}})
+        # the model's LAST parameter is the angle (make_model)
+        kw.update(reparameterisations={f"x{dims - 1}": {"reparameterisation": "angle"}})
     if kind in ("cap", "resume-cap"):
         kw.update(max_iteration=nlive + 7 + seed % 23)
     if kind == "cap-late":
@@ -497,7 +498,7 @@ def run_standard(kind, seed, nlive, dims=2):
     cut = kind.endswith("-cut")
     offset = [-1500.0, 800.0, -5000.0][seed % 3] if kind.endswith("-offset") else 0.0
     angle = kind.endswith("-angle")
-    kw = std_config(kind, seed, nlive)
+    kw = std_config(kind, seed, nlive, dims)
     res = dict(kind=kind, seed=seed, nlive=nlive, dims=dims, segments=[], error=None, offset=offset)
     rec.install()
     try:
